@@ -26,7 +26,7 @@ from vpbt.ctx import Violation, stable_hash
 NS = [2, 3, 4, 5]
 SIGMAS = [0.5, 1.0, 2.0]
 TS = [1, 2, 3]
-SIG_LO, SIG_HI = 0.3, 3.0
+SIG_LO, SIG_HI = 0.3125, 3.0  # exactly representable in float32
 
 # --------------------------------------------------------------------------------------
 # reference model (float64, no genjax code)
